@@ -268,3 +268,7 @@ def chunk_op(command, operation):
     return ((command == 0x02 and (operation == 0x02 or operation == 0x04 or operation == 0x08))
             or (command == 0x10 and (operation == 0x04 or operation == 0x09))
             or (command == 0x30 and operation == 0x04))
+
+
+# A-PLATFORM: the manager's entry point has called Platform.set with a valid platform before anything else
+I.CLASS_OVERRIDES[("Platform", "_platform")] = "Ledger"
